@@ -237,6 +237,23 @@ func verifyIssuer(tokenIssuer, expectedIssuer string) error {
 	return nil
 }
 
+// maxNumericDate bounds the NumericDate values (seconds since the epoch) that are converted as they are.
+const maxNumericDate = 1 << 62
+
+// numericDateSeconds converts a NumericDate claim to whole seconds. Values beyond ±maxNumericDate
+// saturate there: converting a float64 outside the int64 range to int64 yields an
+// implementation-defined value (on amd64 the most negative one), which made a token issued
+// "in the year 3e11" look as if it had been issued long ago.
+func numericDateSeconds(v float64) int64 {
+	if v >= maxNumericDate {
+		return maxNumericDate
+	}
+	if v <= -maxNumericDate {
+		return -maxNumericDate
+	}
+	return int64(v)
+}
+
 // verifyTimeConstraint checks time-based claims ('exp', 'iat', 'nbf') against the current time,
 // allowing for configurable clock skew. It uses different tolerances for past and future checks.
 //
@@ -249,7 +266,7 @@ func verifyIssuer(tokenIssuer, expectedIssuer string) error {
 //   - nil if the time constraint is met within the allowed tolerance.
 //   - An error describing the failure (e.g., "token has expired", "token used before issued").
 func verifyTimeConstraint(unixTime float64, claimName string, future bool) error {
-	claimTime := time.Unix(int64(unixTime), 0)
+	claimTime := time.Unix(numericDateSeconds(unixTime), 0)
 	now := time.Now() // Use current time without truncation
 
 	var err error
